@@ -155,6 +155,9 @@ pub struct Stage {
     /// leading dropped members may exist inside the implementation that an index-based
     /// insert would count (until the next painted frame)
     pub unreaped_possible: bool,
+    /// full heights (rows) of the bars the model retired although the implementation may still
+    /// hold them as members until the next painted frame
+    pub unreaped_rows: usize,
     pub removed_since_paint: bool,
     pub w: usize,
     pub h: usize,
@@ -174,6 +177,10 @@ pub struct Stage {
     /// for the check after the current call only: what the call's bar showed at the last frame
     /// painted during the call (a call with several draws may end with an unpainted one)
     pub shown_override: Option<(usize, Vec<String>)>,
+    /// what each member showed in the last painted frame, and whether that frame was cut at the
+    /// terminal height
+    pub last_painted: std::collections::BTreeMap<usize, Vec<String>>,
+    pub last_frame_cut: bool,
 }
 
 pub struct OpResult {
@@ -235,6 +242,7 @@ impl Stage {
             items: vec![],
             region_painted: false,
             unreaped_possible: false,
+            unreaped_rows: 0,
             removed_since_paint: false,
             w,
             h,
@@ -250,6 +258,8 @@ impl Stage {
             log_count: 0,
             last_io_err: None,
             shown_override: None,
+            last_painted: Default::default(),
+            last_frame_cut: false,
         }
     }
 
@@ -350,12 +360,35 @@ impl Stage {
         }
     }
 
-    fn retire_leading(&mut self) -> Vec<usize> {
+    /// `by_paint`: called right after a painted frame (the implementation reaps the leading
+    /// dropped bars in that very draw); otherwise after a drop without / before its reaping.
+    fn retire_leading(&mut self, by_paint: bool) -> Vec<usize> {
         let mut retired = vec![];
         while let Some(&b) = self.members.first() {
             if self.bars[b].abs.dropped {
                 self.members.remove(0);
                 retired.push(b);
+                if self.last_frame_cut {
+                    // the last frame was cut at the terminal height: only the lines of this bar that
+                    // were painted can remain as static text (and the statement does not pin down
+                    // whether they do)
+                    let painted = self.last_painted.get(&b).cloned().unwrap_or_default();
+                    let full = self.bars[b].abs.submitted.clone().unwrap_or_default();
+                    if !painted.is_empty() {
+                        // (a cut frame leaves the cursor in the middle of a row - observation O1 -
+                        // so what follows static text kept from it is not pinned down)
+                        self.out_of_scope = Some("a painted, visibly finished bar is retired from a height-truncated frame".into());
+                    }
+                    if painted.len() < full.len() {
+                        if !by_paint {
+                            // the implementation may not have reaped this bar yet: it would still
+                            // paint it once there is room
+                            self.out_of_scope = Some("a dropped bar that did not fit the last frame may be painted later".into());
+                        }
+                        self.bars[b].abs.submitted = Some(painted);
+                        self.bars[b].abs.vanishable = true;
+                    }
+                }
                 let lines_empty = self.bars[b].abs.submitted.as_ref().map_or(true, |l| l.is_empty());
                 if !lines_empty {
                     self.bars[b].abs.min_log = self.log_count;
@@ -1003,12 +1036,28 @@ impl Stage {
                     self.out_of_scope = Some(format!("{at}: printing while the frame is height-truncated"));
                     return;
                 }
-                if self.members.iter().any(|b| self.bars[*b].abs.dropped && self.bars[*b].abs.status == Status::DoneVisible) {
-                    // a visibly finished bar is being retired while the frame is cut: what remains
-                    // of it as static text is not pinned down by the statement
-                    self.out_of_scope = Some(format!("{at}: visibly finished dropped bar in a height-truncated frame"));
-                    return;
+            }
+        }
+        // the frame painted by this call still shows dropped leading bars as members: check first,
+        // retire afterwards
+        if self.rules.transcript {
+            let actual = self.term.transcript();
+            if !res.flushed {
+                if actual != self.last_transcript {
+                    r.violate(
+                        &format!("{prop}.no_paint_no_change"),
+                        format!(
+                            "{at}: no frame was painted (no flush) but the terminal changed:\n{}",
+                            diff_rows(&self.last_transcript, &actual)
+                        ),
+                    );
                 }
+            } else {
+                self.check_transcript(&actual, &at, r);
+                self.last_transcript = actual;
+            }
+            if r.violation.is_some() || self.out_of_scope.is_some() {
+                return;
             }
         }
         if res.flushed || matches!(op.k.as_str(), "drop" | "drop_all") {
@@ -1016,32 +1065,19 @@ impl Stage {
             // once (after the frame its drop may have painted). Bars dropped earlier that become
             // leading only through that may still be counted by an index-based insert until the
             // next painted frame.
-            let retired = self.retire_leading();
+            let retired = self.retire_leading(res.flushed && !matches!(op.k.as_str(), "drop" | "drop_all"));
             if matches!(op.k.as_str(), "drop" | "drop_all") {
                 let this = bar.map(|(b, _, _)| b);
                 if retired.iter().any(|b| Some(*b) != this) || (self.removed_since_paint && !retired.is_empty()) {
                     self.unreaped_possible = true;
+                    let w = self.w;
+                    self.unreaped_rows = retired
+                        .iter()
+                        .map(|b| self.bars[*b].abs.render().iter().map(|l| rows_of(l, w)).sum::<usize>())
+                        .sum();
                 }
             }
         }
-        if !self.rules.transcript {
-            return;
-        }
-        let actual = self.term.transcript();
-        if !res.flushed {
-            if actual != self.last_transcript {
-                r.violate(
-                    &format!("{prop}.no_paint_no_change"),
-                    format!(
-                        "{at}: no frame was painted (no flush) but the terminal changed:\n{}",
-                        diff_rows(&self.last_transcript, &actual)
-                    ),
-                );
-            }
-            return;
-        }
-        self.check_transcript(&actual, &at, r);
-        self.last_transcript = actual;
     }
 
     /// Lines the region should show, per member: (bar, lines, optional)
@@ -1108,6 +1144,15 @@ impl Stage {
         let mut region = self.region_spec();
         // height: does the region fit?
         let region_rows: usize = region.iter().map(|(_, l, _)| l.iter().map(|x| rows_of(x, w)).sum::<usize>()).sum();
+        if self.unreaped_rows > 0 && region_rows + self.unreaped_rows > self.h {
+            // dropped bars the implementation has not reaped yet still take part in this frame's
+            // height budget (once); the model has retired them already
+            self.unreaped_rows = 0;
+            self.out_of_scope = Some(format!("{at}: unreaped dropped bars in a height-limited frame"));
+            r.inconclusive = true;
+            return;
+        }
+        self.unreaped_rows = 0;
         let mut region_alts: Vec<Vec<(usize, Vec<String>, bool)>> = vec![];
         if region_rows > self.h {
             if !self.rules.height_cut {
@@ -1168,7 +1213,8 @@ impl Stage {
             return;
         }
         let mut best: Option<MatchOut> = None;
-        for alt in &region_alts {
+        let mut best_alt = 0usize;
+        for (ai, alt) in region_alts.iter().enumerate() {
             let region_rows: Vec<(usize, Vec<String>, bool)> = alt.iter().map(|(b, l, o)| (*b, lines_rows(l, w), *o)).collect();
             let m = match_transcript(actual, &logs, &statics, &region_rows, self.bottom_ever && self.multi);
             if m.exhausted {
@@ -1178,6 +1224,7 @@ impl Stage {
             }
             if m.ok {
                 best = Some(m);
+                best_alt = ai;
                 break;
             }
         }
@@ -1216,6 +1263,8 @@ impl Stage {
                 return;
             }
         };
+        self.last_frame_cut = region_rows > self.h;
+        self.last_painted = region_alts[best_alt].iter().map(|(b, l, _)| (*b, l.clone())).collect();
         // optional items that are absent in every match are gone for good
         // (while the region is cleared nothing is decided: the implementation repaints dropped
         // bars it has not reaped yet with the next frame)
